@@ -119,7 +119,7 @@ fn continuations<K: KeyT, V: ValT>(mode: &str, w: &World<K, V>, spec: &RunSpec, 
     let mut out: Vec<Vec<Op>> = Vec::new();
     let uni = spec.cfg.universe.max(1);
     let tail = |p: u32| -> Vec<Op> {
-        if K::CLASS == ElemClass::Zst {
+        if K::CLASS.is_zst() {
             vec![]
         } else {
             vec![Op::Insert { m: 0, k: KeySel::Kv(uni + 7), p: p + 1 }, Op::Insert { m: 0, k: KeySel::Kv(uni + 8), p: p + 2 }]
@@ -135,8 +135,8 @@ fn continuations<K: KeyT, V: ValT>(mode: &str, w: &World<K, V>, spec: &RunSpec, 
             let absent: u32 = (0..uni + 1).find(|k| !slot.model.contains_key(k)).unwrap_or(uni);
             // key classes: absent, in main, first in the cached iterator's order, deep in the old table
             let mut keys: Vec<(KeySel, bool)> = Vec::new();
-            if K::CLASS != ElemClass::Zst || present.is_none() {
-                keys.push((KeySel::Kv(if K::CLASS == ElemClass::Zst { 0 } else { absent }), false));
+            if !K::CLASS.is_zst() || present.is_none() {
+                keys.push((KeySel::Kv(if K::CLASS.is_zst() { 0 } else { absent }), false));
             }
             if let Some(p) = present {
                 keys.push((KeySel::Main(0, p), true));
@@ -197,7 +197,7 @@ fn continuations<K: KeyT, V: ValT>(mode: &str, w: &World<K, V>, spec: &RunSpec, 
                     for forget in [false, true] {
                         out.push(vec![Op::SDrain { s: 0, consume: mk(k, forget) }, Op::SInsert { s: 0, k: KeySel::Kv(uni + 3) }]);
                         out.push(vec![Op::SIntoIter { s: 0, consume: mk(k, forget), new_cap: 0 }, Op::SInsert { s: 0, k: KeySel::Kv(uni + 3) }]);
-                        out.push(vec![Op::SDrainFilter { s: 0, pred: Pred::Mask(0xabc ^ k as u64, 60), consume: mk(k, forget) }, Op::SInsert { s: 0, k: KeySel::Kv(uni + 3) }]);
+                        out.push(vec![Op::SDrainFilter { s: 0, pred: Pred::Mask(0xabc ^ k as u64, 60), consume: mk(k, forget), drop_panic: if !forget && k % 3 == 2 { Some(1) } else { None } }, Op::SInsert { s: 0, k: KeySel::Kv(uni + 3) }]);
                     }
                     out.push(vec![Op::SIterCheck { s: 0, clone_at: Some(k) }]);
                 }
@@ -265,7 +265,7 @@ pub fn run_variants<K: KeyT, V: ValT>(prop: Prop, spec: &RunSpec, thorough: bool
                         a.detail = format!("[continuation {} = {:?}] {}", ci, cont, a.detail);
                         a.detail.truncate(900);
                         out.violation = Some(a);
-                        out.fault = Some(Fault { at: ci, nth: 0 });
+                        out.fault = Some(Fault { at: ci, nth: 0, site: None });
                     }
                     stop = true;
                 } else {
@@ -294,7 +294,7 @@ pub fn run_variants<K: KeyT, V: ValT>(prop: Prop, spec: &RunSpec, thorough: bool
                     a.detail = format!("[teardown after continuation {} = {:?}] {}", ci, cont, a.detail);
                     a.detail.truncate(900);
                     out.violation = Some(a);
-                    out.fault = Some(Fault { at: ci, nth: 0 });
+                    out.fault = Some(Fault { at: ci, nth: 0, site: None });
                 }
                 return out;
             } else {
